@@ -150,6 +150,14 @@ class Frame:
         self.select = {}
 
 
+class ResumeUnwind(Exception):
+    """RESUME label executed for an error that was raised inside a procedure: unwinds to the main module."""
+
+    def __init__(self, label):
+        Exception.__init__(self, label)
+        self.label = label
+
+
 class Interp:
     def __init__(self, program, stdin="", max_steps=5000, max_out=100000):
         """program: {'main': [stmts], 'procs': [proc stmts], 'shared': set(names), 'types': {...}}"""
@@ -444,7 +452,12 @@ class Interp:
         row = self.rows.get(call_sid)
         self.call_rows.append(row)
         saved_sid = getattr(self, "cur_sid", None)
-        self.run(callee, proc.body, proc.labels)
+        try:
+            self.run(callee, proc.body, proc.labels)
+        except ResumeUnwind:
+            self.call_rows.pop()
+            self.depth -= 1
+            raise
         self.cur_sid = saved_sid     # back in the calling statement
         self.call_rows.pop()
         self.depth -= 1
@@ -680,8 +693,15 @@ class Interp:
                     pc += 1
                     continue
                 if frame is not self.globals:
-                    raise Discard("resume_label_from_procedure")
+                    # RESUME label: the label belongs to the main module, every active call is abandoned (no write-back of
+                    # by-reference arguments, the GOSUBs pending inside the calls are forgotten, those of the main module stay)
+                    raise ResumeUnwind(action[1])
                 pc = labels[action[1].upper()]
+                continue
+            except ResumeUnwind as u:
+                if frame is not self.globals or handler_mode:
+                    raise
+                pc = labels[u.label.upper()]
                 continue
         return None
 
